@@ -16,7 +16,6 @@ import (
 	"os"
 	"os/exec"
 	"path/filepath"
-	"regexp"
 	"runtime/debug"
 	"sort"
 	"strings"
@@ -131,13 +130,15 @@ func judgeC01Load(args, real, _ json.RawMessage) *core.Verdict {
 	}
 	json.Unmarshal(real, &r)
 	if why := nonTermination(real); why != "" {
-		if !strings.HasPrefix(a.Shape, "cycle/") {
-			// outside the stream of inputs that are expected not to return: confirm in isolation first
-			if again := confirmNonTermination("c01load", args, 30*time.Second); again != nil && nonTermination(again) == "" {
-				real = again
-				json.Unmarshal(real, &r)
-				why = ""
-			}
+		// a watchdog that fires inside a busy batch is not evidence: confirm in isolation first
+		check := "c01load"
+		if strings.HasPrefix(a.Shape, "cycle/") {
+			check = "c01cycle"
+		}
+		if again := confirmNonTermination(check, args, 30*time.Second); again != nil && nonTermination(again) == "" {
+			real = again
+			json.Unmarshal(real, &r)
+			why = ""
 		}
 		if why != "" {
 			return core.Fail("hang@"+hangCause(a), fmt.Sprintf("load does not return (%s; shape %s)", why, a.Shape))
@@ -249,30 +250,13 @@ func confirmNonTermination(check string, args json.RawMessage, timeout time.Dura
 	}
 }
 
-var selfMergeRe = regexp.MustCompile(`<<\s*:\s*\[?\s*\*`)
 
-// hangCause names the construct that makes a load loop.  In the reference-cycle stream every input is a named
-// shape (the recorded defects have their own names; any *other* cycle shape that stops returning is a new
-// key).  In the random streams the cause is read off the input, so the key is stable across seeds.
+// hangCause names the input class of a load that does not return: the named shape in the reference-cycle stream,
+// the stream otherwise.  (The three non-terminations found in round 1 — merge key aliasing its own anchor, alias
+// cycle through an `!override` node, include cycle through an override path — are repaired; none is expected.)
 func hangCause(a c01Args) string {
 	if strings.HasPrefix(a.Shape, "cycle/") {
-		switch {
-		case strings.HasPrefix(a.Shape, "cycle/alias-self-merge"):
-			return "alias-self-merge"
-		case strings.HasPrefix(a.Shape, "cycle/alias-override-cycle"):
-			return "alias-override-cycle"
-		}
 		return a.Shape
-	}
-	for _, c := range a.Req.Files {
-		if selfMergeRe.MatchString(c) {
-			return "alias-self-merge"
-		}
-	}
-	for _, c := range a.Req.Files {
-		if strings.Contains(c, "!override") && strings.Contains(c, "&") && strings.Contains(c, "*") {
-			return "alias-override-cycle"
-		}
 	}
 	return shapeClass(a.Shape)
 }
@@ -449,6 +433,12 @@ func runC01(ctx *core.Ctx) {
 	}
 
 	only := os.Getenv("VERIF_C01_ONLY") // development aid: run one family of streams
+	if only == "" || only == "oracle" {
+		// the named reference-cycle inputs first: if a cycle stops being detected, the replay should be a compose
+		// file, and the engine stops feeding cases after a storm of crashes
+		c01Cycles(ctx)
+		ctx.Wait() // inputs that may not return stay in small batches of their own
+	}
 	if only == "" || only == "models" {
 		c01ResetStream(ctx)
 		ctx.Wait()
@@ -458,8 +448,7 @@ func runC01(ctx *core.Ctx) {
 		schemacorr.Run(ctx) // gojsonschema vs Schema.conforms (harness/schema.go): the tie behind Props/C01Schema.lean
 	}
 	if only == "" || only == "oracle" {
-		c01Cycles(ctx)
-		ctx.Wait() // keep the inputs that are known not to return in small batches of their own
+		c01Valid(ctx) // combinations of valid attribute spellings (c01_valid.go)
 		c01Tags(ctx, rich)
 		c01Missing(ctx)
 		c01Kinds(ctx, sch, rich)
@@ -487,7 +476,9 @@ var c01KindValues = []struct {
 
 // option sets tried systematically on every (path, kind, position): default, no schema validation,
 // and no schema validation with the late stages switched off one by one (so that each stage sees unvalidated input)
-var c01OptionSets = []int{0, 1, 1 | 4 | 16, 1 | 32 | 64 | 256}
+// (+ interpolation skipped, alone and together with validation: uncast strings reach the typed stages —
+// the `external: "true"` panic of validation.checkExternal was only reachable that way and was missed in round 1)
+var c01OptionSets = []int{0, 1, 1 | 4 | 16, 1 | 32 | 64 | 256, 2, 1 | 2}
 
 // (attribute path × node kind × position)
 func c01Kinds(ctx *core.Ctx, sch *c01Schema, rich M) {
@@ -639,6 +630,10 @@ func c01Cycles(ctx *core.Ctx) {
 		{"depends-self", "depends_on", one("services:\n  a:\n    image: i\n    depends_on: [a]\n"), nil},
 		{"depends-2", "depends_on", one("services:\n  a:\n    image: i\n    depends_on: [b]\n  b:\n    image: i\n    depends_on:\n      a:\n        condition: service_started\n"), nil},
 		{"depends-3", "depends_on", one("services:\n  a:\n    image: i\n    depends_on: [b]\n  b:\n    image: i\n    depends_on: [c]\n  c:\n    image: i\n    depends_on: [a]\n  d:\n    image: i\n"), nil},
+		// a cycle with a tail: the start vertex of the search (names are tried in order) is not on the cycle
+		{"depends-lasso", "depends_on", one("services:\n  app:\n    image: i\n    depends_on: [db]\n  db:\n    image: i\n    depends_on: [cache]\n  cache:\n    image: i\n    depends_on: [db]\n"), nil},
+		{"depends-lasso-long", "depends_on", one("services:\n  a:\n    image: i\n    depends_on: [b]\n  b:\n    image: i\n    depends_on: [x]\n  x:\n    image: i\n    depends_on: [y]\n  y:\n    image: i\n    depends_on: [z]\n  z:\n    image: i\n    depends_on: [x]\n"), nil},
+		{"depends-lasso-implicit", "depends_on", one("services:\n  a:\n    image: i\n    links: [m]\n  m:\n    image: i\n    network_mode: service:n\n  n:\n    image: i\n    volumes_from: [m]\n"), nil},
 		{"depends-optional-2", "depends_on", one("services:\n  a:\n    image: i\n    depends_on:\n      b: {condition: service_started, required: false}\n  b:\n    image: i\n    depends_on: [a]\n"), nil},
 		{"depends-across-files", "depends_on", map[string]string{
 			"compose.yml": "services:\n  a:\n    image: i\n    depends_on: [b]\n  b:\n    image: i\n",
@@ -659,32 +654,53 @@ func c01Cycles(ctx *core.Ctx) {
 				Shape: "cycle/" + c.name, Expect: "cycle:" + c.kind})
 		}
 	}
-	// generated families: rings of n services / files
-	for n := 2; n <= ctx.Pick(4, 7); n++ {
-		var ext, dep strings.Builder
-		ext.WriteString("services:\n")
-		dep.WriteString("services:\n")
-		files := map[string]string{}
-		for i := 0; i < n; i++ {
-			next := (i + 1) % n
-			fmt.Fprintf(&ext, "  s%d:\n    image: i\n    extends: s%d\n", i, next)
-			fmt.Fprintf(&dep, "  s%d:\n    image: i\n    depends_on: [s%d]\n", i, next)
-			name := fmt.Sprintf("f%d.yml", i)
-			if i == 0 {
-				name = "compose.yml"
+	// generated families: rings of n services / files, reached through a tail of t more (a "lasso": the place where
+	// the walk starts is not on the cycle; tail names sort before and after the ring's)
+	for n := 1; n <= ctx.Pick(4, 7); n++ {
+		for t := 0; t <= ctx.Pick(2, 3); t++ {
+			for _, tailPrefix := range []string{"a", "z"} {
+				if t == 0 && tailPrefix == "z" {
+					continue
+				}
+				if n == 1 && t == 0 {
+					continue // the self references are in the hand-written list
+				}
+				var ext, dep strings.Builder
+				ext.WriteString("services:\n")
+				dep.WriteString("services:\n")
+				files := map[string]string{}
+				// chain: tail_0 → … → tail_{t-1} → s0 → s1 → … → s_{n-1} → s0
+				var chain []string
+				for k := 0; k < t; k++ {
+					chain = append(chain, fmt.Sprintf("%s%d", tailPrefix, k))
+				}
+				for k := 0; k < n; k++ {
+					chain = append(chain, fmt.Sprintf("s%d", k))
+				}
+				fileOf := func(k int) string {
+					if k == 0 {
+						return "compose.yml"
+					}
+					return chain[k] + ".yml"
+				}
+				for k, name := range chain {
+					next := k + 1
+					if next == len(chain) {
+						next = t // back to s0
+					}
+					fmt.Fprintf(&ext, "  %s:\n    image: i\n    extends: %s\n", name, chain[next])
+					fmt.Fprintf(&dep, "  %s:\n    image: i\n    depends_on: [%s]\n", name, chain[next])
+					files[fileOf(k)] = fmt.Sprintf("include:\n  - %s\nservices:\n  %s:\n    image: i\n", fileOf(next), name)
+				}
+				shape := fmt.Sprintf("ring-%d-tail-%s%d", n, tailPrefix, t)
+				ctx.Count("cycle-extends")
+				ctx.Add("c01cycle", c01Args{Req: core.LoadReq{Files: one(ext.String()), ConfigFiles: []string{"compose.yml"}, ProjectName: "p"}, Shape: "cycle/extends-" + shape, Expect: "cycle:extends"})
+				ctx.Count("cycle-depends_on")
+				ctx.Add("c01cycle", c01Args{Req: core.LoadReq{Files: one(dep.String()), ConfigFiles: []string{"compose.yml"}, ProjectName: "p"}, Shape: "cycle/depends-" + shape, Expect: "cycle:depends_on"})
+				ctx.Count("cycle-include")
+				ctx.Add("c01cycle", c01Args{Req: core.LoadReq{Files: files, ConfigFiles: []string{"compose.yml"}, ProjectName: "p"}, Shape: "cycle/include-" + shape, Expect: "cycle:include"})
 			}
-			nextName := fmt.Sprintf("f%d.yml", next)
-			if next == 0 {
-				nextName = "compose.yml"
-			}
-			files[name] = fmt.Sprintf("include:\n  - %s\nservices:\n  s%d:\n    image: i\n", nextName, i)
 		}
-		ctx.Count("cycle-extends")
-		ctx.Add("c01cycle", c01Args{Req: core.LoadReq{Files: one(ext.String()), ConfigFiles: []string{"compose.yml"}, ProjectName: "p"}, Shape: fmt.Sprintf("cycle/extends-ring-%d", n), Expect: "cycle:extends"})
-		ctx.Count("cycle-depends_on")
-		ctx.Add("c01cycle", c01Args{Req: core.LoadReq{Files: one(dep.String()), ConfigFiles: []string{"compose.yml"}, ProjectName: "p"}, Shape: fmt.Sprintf("cycle/depends-ring-%d", n), Expect: "cycle:depends_on"})
-		ctx.Count("cycle-include")
-		ctx.Add("c01cycle", c01Args{Req: core.LoadReq{Files: files, ConfigFiles: []string{"compose.yml"}, ProjectName: "p"}, Shape: fmt.Sprintf("cycle/include-ring-%d", n), Expect: "cycle:include"})
 	}
 }
 
